@@ -1,6 +1,7 @@
 import PeroVerif.Drv.Common
 import PeroVerif.Model.Assign
 import PeroVerif.Model.Clip
+import PeroVerif.Model.MergeLoop
 open Lean Drv
 
 namespace Drv.C11
@@ -35,6 +36,23 @@ def handle : Handler := fun j => do
       let pieces := Clip.clipPolyline ⟨x0, y0, x1, y1⟩ (pts.map fun p => (p.getD 0 0, p.getD 1 0))
       return ok (jList (jList fun (p : Clip.Pt) => Json.arr #[jRat p.1, jRat p.2]) pieces)
     | _ => throw "rect"
+  | "merge" =>
+    -- merge_lines on horizontal integer baselines: [xmin, xmax, y, h0, h1] per line
+    let ls ← (← getIntMat j "lines").mapM fun r => match r with
+      | [a, b, c, d, e] => pure ({ xmin := a, xmax := b, y := c, h0 := d, h1 := e } : MergeLoop.Ln)
+      | _ => throw "line"
+    let jl := fun (l : MergeLoop.Ln) => jInts [l.xmin, l.xmax, l.h0, l.h1]
+    let c := fun i j => MergeLoop.compat (ls.getD i default) (ls.getD j default)
+    let g := MergeLoop.grouping c ls.length
+    let idx := List.range ls.length
+    let margins := idx.flatMap fun i => (idx.filter (· ≠ i)).map fun k => MergeLoop.margin (ls.getD i default) (ls.getD k default)
+    let out := MergeLoop.mergeLines ls
+    let lp := MergeLoop.loop MergeLoop.mergeLines (ls.length + 1) ls
+    return ok (Json.mkObj [("lines", jList jl out), ("groups", jList jNats g.1), ("merged", jNats g.2),
+      ("margin", jInt (margins.foldl min 1000000)),
+      ("loop", match lp with
+        | none => Json.null
+        | some (r, k) => Json.mkObj [("iterations", jNat k), ("lines", jList jl r)])])
   | _ => throw s!"C11: unknown op {op}"
 
 end Drv.C11
